@@ -23,8 +23,20 @@ func HarnessC09(fam, nT, nV, convCode, form, nRedef, once int) {
 	}
 	vnNote(w.String())
 	vnOnDivergence("", "")
+	// symbolically, every value and converter is a construction default of the target
+	// and all calls are made without options
+	asDefaults := vnBool("asDefaults")
+	build := func() ([]Arg, bool) {
+		if asDefaults {
+			return nil, w.hBuildAllAsDefaults()
+		}
+		return w.hBuildAll()
+	}
+	if asDefaults {
+		vnNoteAppend(" [all options are construction defaults]")
+	}
 	// --- world A: the reference call
-	argsA, ok := w.hBuildAll()
+	argsA, ok := build()
 	if !ok {
 		vnAssume(false)
 	}
@@ -35,7 +47,7 @@ func HarnessC09(fam, nT, nV, convCode, form, nRedef, once int) {
 	logA := w.Log
 	// --- world B: Redefine first
 	w.Log = nil
-	argsB, _ := w.hBuildAll()
+	argsB, _ := build()
 	funcsB := w.Funcs
 	roots := make([]interface{}, 0, len(funcsB)+1)
 	for _, f := range funcsB {
@@ -55,10 +67,13 @@ func HarnessC09(fam, nT, nV, convCode, form, nRedef, once int) {
 		case 3: // output filter rejecting everything: Redefine fails early
 			rargs = append(rargs, FilterOutput(func(Value) bool { return false }))
 		case 4: // fewer supplied values
+			if asDefaults {
+				vnAssume(false)
+			}
 			rargs = rargs[len(w.Vals):]
 		case 6: // the first converter is offered by a converter generator instead, and a
 			// type filter routes the planning through it
-			if len(w.Convs) == 0 || len(w.Convs[0].In) == 0 {
+			if len(w.Convs) == 0 || len(w.Convs[0].In) == 0 || asDefaults {
 				vnAssume(false)
 			}
 			gf := funcsB[1]
@@ -76,7 +91,7 @@ func HarnessC09(fam, nT, nV, convCode, form, nRedef, once int) {
 		case 5: // interface-typed input filter and an admitting output filter
 			rargs = append(rargs, FilterInput(FilterOr(FilterType(hType(hTI)), FilterType(hType(hTP1)))), FilterOutput(func(Value) bool { return true }))
 		}
-		if hGuardPlain(func() { _, _ = funcsB[0].Redefine(rargs...) }) {
+		if hGuardPlain(func() { vnConcurrently(func() { _, _ = funcsB[0].Redefine(rargs...) }) }) {
 			return // C06's subject
 		}
 		vnAssert(len(w.Log) == 0, "C09.redefine-executes-no-user-code")
